@@ -247,6 +247,7 @@ def gen_script(rnd, k):
     w = Writer(rnd, numerals_are_real=logic in ("QF_LRA", "QF_NRA", "QF_RDL", "LRA"), tags=tags)
     w.int_numeral_rationals = True
     w.annotate = True
+    w.qualify = True
     lines = []
     if logic:
         lines.append("(set-logic %s)" % logic)
